@@ -156,21 +156,21 @@ def option_features(doc, secname, opt_lower, observed):
     """Narrow structural facts about one (section, option) whose observed value is wrong.
     Each is True only when the structure is present *and* the observed value is one that DEFAULT
     holds for this option (i.e. the discrepancy is the one the structure explains)."""
-    own = own_spellings(doc, secname, opt_lower)
+    blocks_of_sec = [b for b in doc["blocks"] if b["name"].strip() == secname]
+    per_block = [[e[1].strip() for e in b["entries"] if e[0] == "o" and e[1].strip().lower() == opt_lower]
+                 for b in blocks_of_sec]
+    own = [sp for ob in per_block for sp in ob]
     dsp = own_spellings(doc, DEFAULT, opt_lower)
     from_default = isinstance(observed, str) and norm(observed) in default_values(doc, opt_lower)
-    blocks_of_sec = [b for b in doc["blocks"] if b["name"].strip() == secname]
     feats = {}
-    # a DEFAULT spelling of the option that the section itself does not use, while the section owns the option
+    # some block of the section owns the option while DEFAULT spells it in a way that block does not use
     feats["default_option_differs_in_case_from_own"] = bool(
-        from_default and own and any(d not in own for d in dsp))
-    # the same spelling twice inside DEFAULT, section has no own option of that name
+        from_default and any(ob and any(d not in ob for d in dsp) for ob in per_block))
+    # the same spelling twice inside DEFAULT, the section has no own option of that name
     feats["duplicate_option_in_DEFAULT"] = bool(
         from_default and not own and len(dsp) != len(set(dsp)))
-    # the section header occurs more than once, the section owns the option in one block but not in a later one
-    rep = False
-    if len(blocks_of_sec) > 1 and own and dsp:
-        has = [any(e[0] == "o" and e[1].strip().lower() == opt_lower for e in b["entries"]) for b in blocks_of_sec]
-        rep = any(h and not all(has[i + 1:]) for i, h in enumerate(has[:-1]))
+    # the section header occurs more than once; a block owns the option and a later block of the section does not
+    has = [bool(ob) for ob in per_block]
+    rep = bool(dsp) and any(h and not all(has[i + 1:]) for i, h in enumerate(has[:-1]))
     feats["section_header_repeated_with_DEFAULT"] = bool(from_default and rep)
     return feats
